@@ -1694,6 +1694,40 @@ package gedcom
 //@   loop 1 iter new-entry-kept: implies(nd != nil && made != old(made), len(nd.Children) >= 1 && nd.Children[len(nd.Children)-1] == made)
 //@   loop 1 nobreak
 
+// C07 (what a copy is made of): the copy of one node is made by the node
+// constructor from exactly the tag, the value and the pointer the source
+// reports, in the destination document and family; and copying a tree hands
+// every child of the source on exactly once, in order, with the same filter,
+// and adds what comes back (unless it is nil) to the copy of the parent.
+//@ func shallowCopyNode
+//@   props C07
+//@   ghost T string = ""
+//@   ghost V string = ""
+//@   ghost P string = ""
+//@   ghost n int = 0
+//@   ghost made iface
+//@   oncall Node.Tag check of-the-source: arg0 == node
+//@   oncall Node.Tag do T = result.tag
+//@   oncall Node.Value check of-the-source: arg0 == node
+//@   oncall Node.Value do V = result
+//@   oncall Node.Pointer check of-the-source: arg0 == node
+//@   oncall Node.Pointer do P = result
+//@   oncall newNode check same-tag-value-pointer: arg0 == document && arg1 == family && arg2.tag == T && arg3 == V && arg4 == P
+//@   oncall newNode do n = n + 1; made = result
+//@   ensures the-copy: n == 1 && result == made
+//@ func filter
+//@   props C07
+//@   ghost nRec int = 0
+//@   ghost last iface
+//@   ghost nAdd int = 0
+//@   opaque shallowCopyNode, IsNil, entityMap.GetOrAssign
+//@   oncall filter check same-filter-and-destination: arg0 == child && arg3 == document
+//@   oncall filter do nRec = nRec + 1; last = result
+//@   oncall Node.AddNode when keepTraversing check adds-what-came-back: arg0 == result && arg1 == last && !isnil(last)
+//@   oncall Node.AddNode do nAdd = nAdd + 1
+//@   loop 1 iter every-child-once: nRec == old(nRec) + 1 && nAdd - old(nAdd) == ite(isnil(last), 0, 1)
+//@   loop 1 nobreak
+
 // C07 (one level of deep equality): a nil node is never deeply equal to
 // anything; two different nodes are deeply equal only if Equals(left, right)
 // says so (it is asked about exactly these two) and their child lists have the
@@ -1779,6 +1813,24 @@ package gedcom
 //@   requires node != nil
 //@   ensures replaced: node.children == nodes
 //@   ensures tag-view-reset: fresh(nodeCache)
+//
+// 1b. root records added to a document: the record is registered under its
+// pointer (when it has one), and a new family makes the document forget its
+// list of families.
+//@ func Document.addPointerToCache
+//@   props C13
+//@   requires doc != nil
+//@   ghost P string = ""
+//@   ghost nStore int = 0
+//@   ghost isFam bool = false
+//@   oncall Node.Pointer check of-the-record: arg0 == node
+//@   oncall Node.Pointer do P = result
+//@   oncall sync.Map.Store check into-the-pointer-lookup: P != ""
+//@   oncall sync.Map.Store do nStore = nStore + 1
+//@   oncall Node.Tag check of-the-record: arg0 == node
+//@   oncall Node.Tag do isFam = (result == TagFamily)
+//@   ensures registered-iff-it-has-a-pointer: nStore == ite(P != "", 1, 0)
+//@   ensures family-list-forgotten: implies(isFam, doc.families == nil)
 //
 // 2. root records: deleting one rebuilds the pointer lookup from the remaining
 // roots (after the removal), forgets the list of families and resets what the
